@@ -44,28 +44,12 @@ theorem rawlru_put_truth (c : RawLru κ ν) (k : κ) (v : ν) (h : c.Inv) :
         exact Or.inl ⟨rfl, by omega, _, put_absent_room c k v hf (by omega)⟩
 
 /-! `PutResult` itself: the hand-written `PartialEq`/`Clone` mirrored branch by branch -/
-def peq (eqk : κ → κ → Bool) (eqv : ν → ν → Bool) : PutResult κ ν → PutResult κ ν → Bool
-  | .put, .put => true
-  | .put, _ => false
-  | .update a, .update b => eqv b a
-  | .update _, _ => false
-  | .evicted k v, .evicted k' v' => eqk k k' && eqv v v'
-  | .evicted _ _, _ => false
-  | .evictedAndUpdate k v o, .evictedAndUpdate k' v' o' => eqk k k' && eqv v v' && eqv o o'
-  | .evictedAndUpdate _ _ _, _ => false
-
-def pclone (ck : κ → κ) (cv : ν → ν) : PutResult κ ν → PutResult κ ν
-  | .put => .put
-  | .update o => .update (cv o)
-  | .evicted k v => .evicted (ck k) (cv v)
-  | .evictedAndUpdate k v o => .evictedAndUpdate (ck k) (cv v) (cv o)
-
 /-- with lawful payload equality, two results are `==` exactly when they are the same variant with equal payloads -/
 theorem peq_iff_eq [DecidableEq ν] (a b : PutResult κ ν) :
-    peq (fun x y => decide (x = y)) (fun x y => decide (x = y)) a b = true ↔ a = b := by
-  cases a <;> cases b <;> simp [peq] <;> grind
+    PutResult.peq (fun x y => decide (x = y)) (fun x y => decide (x = y)) a b = true ↔ a = b := by
+  cases a <;> cases b <;> simp [PutResult.peq] <;> grind
 
-theorem pclone_eq (a : PutResult κ ν) : pclone id id a = a := by cases a <;> rfl
+theorem pclone_eq (a : PutResult κ ν) : PutResult.pclone id id a = a := by cases a <;> rfl
 /-! ## the claim of the result against the retained entries, every cache -/
 
 /-- RawLRU (capacity ≥ 1): the result is true of the list before and after -/
